@@ -216,12 +216,16 @@ def cbuilder(doc, r, unit_str):
     return f'mkbcase {cps(doc["name"])} {cps(comment)} {clist(calls)} {first} {coutcome(r)}'
 
 
-def header(res):
+def header(res, tie=True):
     core, pd = res['core'], res['pd']
+    tie_txt = ('From Run Require Import Tie.\n' if tie else
+               '(* Tie.v did not compile on this run: the repaired rule is the reference *)\n'
+               'Definition Rimpl := Rfixed.\nDefinition Pimpl := P_fixed.\n'
+               'Module Tie.\nDefinition is_fixed := false.\nDefinition is_current := false.\nEnd Tie.\n')
     return ('From Coq Require Import String Ascii List Bool Arith NArith ZArith QArith.\n'
             'From Verif.Sem Require Import Corr.\n'
             'From Verif.C14 Require Import Cif11 Writer ProofsLex ProofsDoc ProofsRules ProofsMisc Check.\n'
-            'From Run Require Import Tie.\nImport ListNotations.\nOpen Scope string_scope.\nOpen Scope list_scope.\n'
+            'Import ListNotations.\nOpen Scope string_scope.\nOpen Scope list_scope.\n' + tie_txt +
             f'Definition core : schema := ({cstr(core[0])}, {cstr(core[1])}, {cstr(core[2])}).\n'
             f'Definition pd : schema := ({cstr(pd[0])}, {cstr(pd[1])}, {cstr(pd[2])}).\n'
             f'Definition version : list N := {cps(res["version"])}.\n'
@@ -619,21 +623,47 @@ def _doc_strings(doc):
 PRIORITY = F6_CLASSES + ['non-ascii', 'newline', 'quotes', 'empty', 'blank', 'missing', 'backslash', 'semicolon-inside', 'benign']
 
 
-def failure_key(doc, why, failing_classes):
+NUMBER_REASONS = ('number-token-charset', 'number-token-syntax', 'number-value', 'su-value', 'missing-su', 'unexpected-su',
+                  'su-not-sqrt-variance', 'integer-form', 'integer-value', 'number-quoted', 'date-token')
+VALUE_REASONS = ('not-valid-cif', 'string-value-differs', 'content-shape', 'tag-differs', 'extra-items', 'loop-tags-differ',
+                 'loop-row-count', 'loop-row-length', 'impl-wrote-a-value-the-model-refuses', 'impl-raised', 'block-count',
+                 'block-code-differs')
+
+
+def failure_key(doc, why, failing_classes, label=None):
+    """stable name of the failing input class: the systematic probe's label when the reason fits it, else derived"""
     base = why.split(':')[0]
-    if base in ('non-ascii-output',):
+    if base == 'text-differs-from-model':
+        return 'model:text-differs-from-model'
+    if base == 'non-ascii-output':
         return 'ascii:' + ('save_cif-comment-not-escaped' if any(ord(c) > 126 for c in doc.get('comment', '') or '')
-                           else 'output')
-    if doc['kind'] == 'low' and any(b['name'] == '' for b in doc['blocks']) or doc['kind'] == 'builder' and doc['name'] == '':
-        return 'block-code:empty'
-    if base in ('number-token-charset', 'number-token-syntax', 'number-value', 'su-value', 'missing-su', 'unexpected-su',
-                'su-not-sqrt-variance', 'integer-form', 'integer-value', 'number-quoted', 'date-token'):
+                           and doc['kind'] == 'low' else 'output')
+    if base in ('author-ids-not-distinct', 'role-ids-not-distinct', 'role-id-without-author'):
+        return 'author-ids:' + base
+    if base in ('ragged-loop-accepted', 'ragged-loop-wrong-exception'):
+        return 'loop:' + base
+    if base in NUMBER_REASONS:
+        if label and label.startswith('number:') and base.startswith('number-token'):
+            return label
         return 'number:' + base
+    if base.startswith('schema-'):
+        return 'schema:' + base
+    empty_name = (doc['kind'] == 'low' and any(b['name'] == '' for b in doc['blocks'])) or \
+                 (doc['kind'] == 'builder' and doc['name'] == '')
+    if empty_name and base == 'not-valid-cif':
+        return 'block-code:empty'
+    if label and label.startswith('quote:') and base in VALUE_REASONS:
+        cls = label.split(':', 1)[1]
+        if cls in failing_classes:
+            return label
+    if label and not label.startswith(('quote:', 'number:', 'ascii:', 'block-code:')):
+        return f'{label}:{base}'
     classes = {classify(s) for s in _doc_strings(doc)}
-    for k in PRIORITY:
-        if k in classes and (k in failing_classes or not failing_classes):
-            return f'quote:{k}'
-    return f'doc:{base}'
+    if base in VALUE_REASONS:
+        for k in PRIORITY:
+            if k in classes and k in failing_classes:
+                return f'quote:{k}'
+    return f'{doc["kind"]}:{base}'
 
 
 def correspondence(ctx):
@@ -649,7 +679,7 @@ def correspondence(ctx):
     core, pd = res['core'], res['pd']
     low_idx = [i for i, d in enumerate(docs) if d['kind'] == 'low']
     bld_idx = [i for i, d in enumerate(docs) if d['kind'] == 'builder']
-    hdr = header(res)
+    hdr = header(res, tie=os.path.exists(os.path.join(ctx.build, 'Tie.vo')))
     low_terms = [clow(docs[i], res['docs'][i], core, pd) for i in low_idx]
     bld_terms = [cbuilder(docs[i], res['docs'][i], res['unit_str']) for i in bld_idx]
     shard = 60
@@ -664,16 +694,24 @@ def correspondence(ctx):
                       {'shard': name, 'error': e}, found_input=False)
     fails = {low_idx[i]: w for i, w in fails_low.items()}
     fails.update({bld_idx[i]: w for i, w in fails_bld.items()})
-    # classes that fail on their own (systematic single-value documents)
-    failing_classes = {labels[i].split(':', 1)[1] for i in fails if labels[i] and labels[i].startswith('quote:')}
+    # classes that fail on their own: the systematic single-PAIR document of an exemplar of the class fails
+    failing_classes = set()
+    for i in fails:
+        if i < len(sysd) and labels[i].startswith('quote:') and docs[i]['kind'] == 'low' and \
+                docs[i]['blocks'][0]['items'] and docs[i]['blocks'][0]['items'][0]['type'] == 'chunk' and \
+                fails[i].split(':')[0] in VALUE_REASONS:
+            failing_classes.add(labels[i].split(':', 1)[1])
     per_key = {}
     for i, why in sorted(fails.items()):
         d = docs[i]
-        key = labels[i] if labels[i] else failure_key(d, why, failing_classes)
-        if labels[i] and labels[i].startswith('quote:') and why.split(':')[0] in ('non-ascii-output',):
-            key = failure_key(d, why, failing_classes)
+        key = failure_key(d, why, failing_classes, labels[i])
         per_key.setdefault(key, []).append(i)
         r = res['docs'][i]
+        if key == 'model:text-differs-from-model':
+            ctx.violation(key, 'the text written by the real package parses back to the supplied content but differs from the '
+                               'text of the model writer (Writer.v) — the proofs no longer cover this source',
+                          {'doc': d, 'reason': why, 'written': r}, found_input=False)
+            continue
         what = (f'{key}: the text written by the real package '
                 + ('is not read back by the independent CIF 1.1 parser as the supplied content' if 'text' in r
                    else f'could not be produced ({r.get("error")}: {r.get("msg", "")[:120]})')
@@ -751,7 +789,7 @@ def search(ctx, broken):
     res = ctx.run_impl('c14_impl.py', {'docs': docs, 'units': [], 'facilities': []})
     terms = [clow(d, r, res['core'], res['pd']) for d, r in zip(docs, res['docs'])]
     # Rfixed as reference: parse-back does not depend on the rule, only the refusal expectation does
-    fails, errs = ctx.coq_eval_shards(header(res).replace('From Run Require Import Tie.\n', ''), terms,
+    fails, errs = ctx.coq_eval_shards(header(res, tie=False), terms,
                                       lambda k: 'Eval vm_compute in (report (map (check_case Rfixed core) cases)).\n',
                                       shard=100, prefix='search')
     out = []
@@ -777,22 +815,23 @@ def replay(ctx, obj):
     print('supplied document:', json.dumps(doc, ensure_ascii=True)[:2000])
     print('the real package', 'wrote:' if 'text' in r else 'raised:')
     print(r.get('text', f"{r.get('error')}: {r.get('msg')}"))
+    import shutil
     ctx.prepare_build()
     pre_build(ctx)
+    shutil.copy(os.path.join(os.path.dirname(os.path.dirname(ctx.build)), 'coq-run', 'C14', 'Tie.v'),
+                os.path.join(ctx.build, 'Tie.v'))
+    tie_ok = True
     for f in GEN_FILES + ['Tie.v']:
-        if f == 'Tie.v':
-            import shutil
-            shutil.copy(os.path.join(os.path.dirname(ctx.build), '..', 'coq-run', 'C14', 'Tie.v'),
-                        os.path.join(ctx.build, 'Tie.v'))
         rc, out = ctx.coqc(f)
         if rc != 0:
-            print('could not compile', f, out[-500:])
-            return 2
+            tie_ok = False
+            print('[note] the quoting rule of this source is not one of the two modelled ones; the repaired rule is the reference')
+            break
     if doc['kind'] == 'low':
         term, foot = clow(doc, r, res['core'], res['pd']), 'report (map (check_case Rimpl core) cases)'
     else:
         term, foot = cbuilder(doc, r, res['unit_str']), 'report (map (check_builder Rimpl core pd version spallation) cases)'
-    fails, errs = ctx.coq_eval_shards(header(res), [term], lambda k: f'Eval vm_compute in ({foot}).\n', prefix='replay')
+    fails, errs = ctx.coq_eval_shards(header(res, tie=tie_ok), [term], lambda k: f'Eval vm_compute in ({foot}).\n', prefix='replay')
     if errs:
         print('Coq evaluation failed:', errs)
         return 2
